@@ -40,8 +40,40 @@ def cases(tier, seed):
             for mod in ("tools", "laue"):
                 cs.append({"mod": mod, "no": no, "cc": cc, "cell": cell, "tier": tier, "names": names[(no, cc)] if ci == 0 else [], "seed": seed,
                            "far": mod == "tools" or ci == 0})
-    # heaviest first does not matter for correctness; keep canonical order
+    # cell sweep: one representative group per Laue class / setting x a lattice of conforming cells (the traversal in
+    # genhkl_base depends on the cell shape; the short per-system list above cannot show a cell-specific slip)
+    for no, cc in SWEEP_GROUPS:
+        g = sg.sg(sgno=no, cell_choice=cc)
+        for cell in sweep_cells(g.crystal_system, g.cell_choice, tier):
+            for mod in (("tools",) if tier == "quick" else ("tools", "laue")):
+                cs.append({"mod": mod, "no": no, "cc": cc, "cell": cell, "tier": tier, "names": [], "seed": seed, "sweep": True})
     return cs
+
+
+SWEEP_GROUPS = [(1, "standard"), (2, "standard"), (3, "standard"), (14, "standard"), (16, "standard"), (75, "standard"), (89, "standard"), (143, "standard"),
+                (149, "standard"), (150, "standard"), (146, "rhombohedral"), (155, "rhombohedral"), (168, "standard"), (177, "standard"), (195, "standard"), (207, "standard")]
+
+
+def sweep_cells(cs_, cc, tier):
+    a, b, c = 4.1, 5.3, 6.7
+    if cs_ == "triclinic":
+        angs = [60, 75, 90, 105, 120] if tier == "quick" else [50, 60, 75, 90, 105, 120, 130]
+        cells = [[a, b, c, float(x), float(y), float(z)] for x in angs for y in angs for z in angs if alph.gram(x, y, z) >= 0.1]
+        cells += [[a, b, c, 90.0004, 89.9996, 90.0], [a, b, c, 150.0, 90.0, 90.0], [a, b, c, 90.0, 90.0, 30.0], [c, a, b, 80.0, 85.0, 150.0]]
+        return cells[:: (4 if tier == "quick" else 1)]
+    if cs_ == "monoclinic":
+        bs = [50, 70, 90.0004, 110, 130, 150] if tier == "quick" else [40, 50, 60, 70, 80, 89.9996, 90.0004, 100, 110, 120, 130, 140, 150, 160]
+        return [[a, b, c, 90.0, float(x), 90.0] for x in bs] + [[c, b, a, 90.0, float(x), 90.0] for x in bs[::2]]
+    if cs_ == "orthorhombic":
+        return [[a, b, c, 90., 90., 90.], [c, a, b, 90., 90., 90.], [2.0, 9.0, 4.0, 90., 90., 90.], [9.0, 2.0, 4.0, 90., 90., 90.]]
+    if cs_ == "tetragonal":
+        return [[a, a, x, 90., 90., 90.] for x in (1.5, 4.1, 9.7)]
+    if cs_ in ("trigonal", "hexagonal"):
+        if cc == "rhombohedral":
+            als = [40, 60, 80, 95, 110] if tier == "quick" else [30, 40, 50, 60, 70, 80, 89.9996, 90.0, 95, 100, 105, 110, 115, 118]
+            return [[a, a, a, float(x), float(x), float(x)] for x in als]
+        return [[a, a, x, 90., 90., 120.] for x in (1.5, 4.1, 9.7)]
+    return [[a, a, a, 90., 90., 90.], [7.9, 7.9, 7.9, 90., 90., 90.]]
 
 
 def compare_all(r, key, rows, integral, ref, fam, what="genhkl_all"):
@@ -72,7 +104,10 @@ def check_case(case):
     no, cc, cell, tier = case["no"], case["cc"], case["cell"], case["tier"]
     g = sg.sg(sgno=no, cell_choice=cc)
     shells = SHELLS[tier]
-    if not case.get("far", True):
+    if case.get("sweep"):
+        m = min(cell[:3])
+        shells = [(0.0, 2.6 / m), (1.1 / m, 2.1 / m)]
+    elif not case.get("far", True):
         shells = shells[:-1]  # far-out thin shell: xfab.laue runs it on the first cell of each setting only (C14 compares the modules)
     orc = G.Oracle(g, cell, max(s[1] for s in shells))
     base = "%s:Sg%d/%s:cell=%s" % (case["mod"], no, cc, cell)
@@ -95,6 +130,9 @@ def check_case(case):
         r.extra["max_index"] = max(r.extra["max_index"], orc.max_index(smin, smax))
         r.extra["reflections"] = r.extra.get("reflections", 0) + len(ref)
         r.states += 1
+    if case.get("sweep"):
+        r.transitions = r.evals
+        return r
     # shell bounds 5e-9 (relative) away from a lattice-point value - the closest the property's quantifier allows: the family at
     # u must be IN for sintlmin = u(1-5e-9) and OUT for u(1+5e-9); the family at v OUT for sintlmax = v(1-5e-9) and IN for v(1+5e-9)
     vals = np.unique(np.round(orc.s[~orc.ext], 10))
